@@ -197,6 +197,12 @@ func (g *Gateway) handleLegacyProtocol(w http.ResponseWriter, r *http.Request, t
 
 		c.Set(t.RDGId, t, cache.DefaultExpiration)
 	} else if r.Method == MethodRDGIN {
+		if t.transportOut == nil {
+			// responses travel over the RDG_OUT_DATA channel, which the client opens first
+			log.Printf("RDG_IN_DATA for connection %s without an RDG_OUT_DATA channel", t.RDGId)
+			http.Error(w, "RDG_OUT_DATA channel not established", http.StatusBadRequest)
+			return
+		}
 		legacyConnections.Inc()
 		defer legacyConnections.Dec()
 
